@@ -100,6 +100,16 @@ CLAIMED = {
         '(compile) and tied only by correspondence. EXPR_ERROR propagation, attachment conditions/blocks and plain matchers are outside this check (C11/C13/C04).',
    technique='Coq proof (structural induction over conditions and rule lists; list-append lemmas for matches_merge) + differential -d / real-run correspondence + spec monitor',
    ref='DESIGN 6 C03'),
+ 'C12': dict(
+   text='Coq theorems about the model of match.c interpolate / isbackref (incl. strtoul blanks, signs, INT_MAX) / ismacro / match_backref: interpolation terminates on '
+        'every template; it equals "tokenize the template with a function that sees neither message nor macro values, substitute each token once, concatenate" - so '
+        'substituted text is never scanned; back-references reach only the pattern entries after the nearest preceding rule sentinel; a missing pattern or group is an '
+        'error for the whole string. Tied by binary runs (recording helper for exec/command argv, label / add-header values) whose captures come from the platform '
+        'regexec on the model\'s decoded values, and an independent python reading of the template syntax as monitor. F-07 (label re-scanned) repaired by a fix: commit.',
+   note='Parse-time macro expansion (expandmacros) is modelled and tied by the same runs but has no theorem yet; F-11 (NULL macro list for command/isdirectory) is '
+        'not exercised. "error leaves the message untouched" is observed through the runs (exit status, no action), not proved.',
+   technique='Coq proof (fuel adequacy by scanner progress lemmas, factorisation through a context-free tokenizer) + differential runs with platform regexec',
+   ref='DESIGN 6 C12'),
 }
 
 ALL = ['C%02d' % i for i in range(1, 19)]
